@@ -60,9 +60,9 @@ package indexing
 // Relations "declared by this package or by a direct import with a fact" (what the indices must contain):
 //@ pure func ctorDeclared(pass *analysis.Pass, local *annotations.PackageAnnotations, p string, t string, x string) bool = (srcLocal(pass, p) && ctorHas(*local, t, x)) || (exists j int :: srcImport(pass, j, p) && ctorHas(impAnn(pass, j), t, x))
 //@ pure func mutDeclared(pass *analysis.Pass, local *annotations.PackageAnnotations, p string, t string, x string) bool = (srcLocal(pass, p) && mutHas(*local, t, x)) || (exists j int :: srcImport(pass, j, p) && mutHas(impAnn(pass, j), t, x))
-//@ macro func toTypeDeclared(pass *analysis.Pass, local *annotations.PackageAnnotations, p string, t string) bool = (srcLocal(pass, p) && toTypeHas(*local, t)) || (exists j int :: srcImport(pass, j, p) && toTypeHas(impAnn(pass, j), t))
-//@ macro func toFuncDeclared(pass *analysis.Pass, local *annotations.PackageAnnotations, p string, t string, x string) bool = (srcLocal(pass, p) && toFuncHas(*local, t, x)) || (exists j int :: srcImport(pass, j, p) && toFuncHas(impAnn(pass, j), t, x))
-//@ macro func toMethDeclared(pass *analysis.Pass, local *annotations.PackageAnnotations, p string, t string, x string) bool = (srcLocal(pass, p) && toMethHas(*local, t, x)) || (exists j int :: srcImport(pass, j, p) && toMethHas(impAnn(pass, j), t, x))
+//@ pure func toTypeDeclared(pass *analysis.Pass, local *annotations.PackageAnnotations, p string, t string) bool = (srcLocal(pass, p) && toTypeHas(*local, t)) || (exists j int :: srcImport(pass, j, p) && toTypeHas(impAnn(pass, j), t))
+//@ pure func toFuncDeclared(pass *analysis.Pass, local *annotations.PackageAnnotations, p string, t string, x string) bool = (srcLocal(pass, p) && toFuncHas(*local, t, x)) || (exists j int :: srcImport(pass, j, p) && toFuncHas(impAnn(pass, j), t, x))
+//@ pure func toMethDeclared(pass *analysis.Pass, local *annotations.PackageAnnotations, p string, t string, x string) bool = (srcLocal(pass, p) && toMethHas(*local, t, x)) || (exists j int :: srcImport(pass, j, p) && toMethHas(impAnn(pass, j), t, x))
 
 //@ func BuildConstructorIndex
 //@   props C06 C01 C02 C09 C10
